@@ -171,6 +171,15 @@ func runC06(c *Ctx, prop string) {
 				if sl, ok := call.Type().Underlying().(*types.Slice); !ok || !strings.Contains(sl.Elem().String(), "textArea") {
 					continue
 				}
+				// append(areas, more...) where `more` is itself accumulated by appends of this function
+				// (a per-field list): its element appends are the constructions, checked on their own
+				if len(call.Call.Args) == 2 && len(variadicElems(call.Call.Args[1])) == 0 {
+					if builtFromAppendsOnly(call.Call.Args[1], map[ssa.Value]bool{}) {
+						continue
+					}
+					bad = append(bad, "areas are taken over wholesale from a list not built here at "+p.Pos(call.Pos()))
+					continue
+				}
 				appends++
 				guarded := false
 				for d := b; d != nil; d = d.Idom() {
@@ -355,7 +364,7 @@ func runC06(c *Ctx, prop string) {
 		for v := ret; v != nil; {
 			call, ok := v.(*ssa.Call)
 			if !ok || calleeName(&call.Call) != "builtin.append" {
-				if !isNilConst(v) {
+				if !isNilConst(v) && !isFreshEmptySlice(v) {
 					if ph, isPhi := v.(*ssa.Phi); !isPhi || len(ph.Edges) == 0 {
 						bad = append(bad, "result is not built by appends onto an empty slice")
 					}
@@ -633,4 +642,51 @@ func renderParts(v ssa.Value) []string {
 		return nil
 	}
 	return []string{"val:" + v.Name()}
+}
+
+
+// isFreshEmptySlice: make(T, 0[, n]) or a T{} literal: a slice of length 0 that aliases nothing else.
+func isFreshEmptySlice(v ssa.Value) bool {
+	switch x := v.(type) {
+	case *ssa.MakeSlice:
+		n, ok := constInt(x.Len)
+		return ok && n == 0
+	case *ssa.Slice:
+		al, ok := x.X.(*ssa.Alloc)
+		if !ok || !al.Heap {
+			return false
+		}
+		if pt, ok := al.Type().Underlying().(*types.Pointer); ok {
+			if arr, ok := pt.Elem().Underlying().(*types.Array); ok && arr.Len() == 0 {
+				return true
+			}
+		}
+	}
+	return false
+}
+
+
+// builtFromAppendsOnly: v is nil/empty, or append(x, ...) with x built the same way, or a φ of such.
+func builtFromAppendsOnly(v ssa.Value, seen map[ssa.Value]bool) bool {
+	if seen[v] {
+		return true
+	}
+	seen[v] = true
+	if isNilConst(v) || isFreshEmptySlice(v) {
+		return true
+	}
+	switch x := v.(type) {
+	case *ssa.Phi:
+		for _, e := range x.Edges {
+			if !builtFromAppendsOnly(e, seen) {
+				return false
+			}
+		}
+		return true
+	case *ssa.Call:
+		if calleeName(&x.Call) == "builtin.append" {
+			return builtFromAppendsOnly(x.Call.Args[0], seen)
+		}
+	}
+	return false
 }
